@@ -26,7 +26,7 @@ Definition bstate_code (s : bstate) : Z :=
 Definition bstate_eqb (a b : bstate) : bool := bstate_code a =? bstate_code b.
 
 (* a bucket: successes, failures, start time *)
-Definition bucket : Type := Z * Z * Z.
+Notation bucket := (Z * Z * Z)%type.
 
 Record bwin := BW { buf : list bucket; cursor : nat; lastUpdate : Z }.
 
@@ -201,15 +201,14 @@ Section Breaker.
      else let o := (c - 2) / 2 in
           EDone (if o =? 0 then OK else if o =? 1 then Fail else Cancel) ((c - 2) mod 2 =? 1)).
 
-  (* compare with what the implementation showed after every event ([k] numbers per event) *)
-  Fixpoint first_mismatch (i : nat) (h : list Z) (obs : list (list Z)) (b : breaker) : option nat :=
-    match h, obs with
-    | z :: rest, ob :: orest =>
+  (* compare with what the implementation showed after every event (7 numbers per event, flat) *)
+  Fixpoint first_mismatch (i : nat) (h : list Z) (obs : list Z) (b : breaker) : option nat :=
+    match h with
+    | z :: rest =>
         let '(now, e) := decode_event z in
         let '(b', o) := step now e b in
-        if list_eqb (observe b' o) ob then first_mismatch (S i) rest orest b' else Some i
-    | [], [] => None
-    | _, _ => Some i
+        if list_eqb (observe b' o) (take 7 obs) then first_mismatch (S i) rest (drop 7 obs) b' else Some i
+    | [] => match obs with [] => None | _ => Some i end
     end.
 End Breaker.
 
